@@ -470,6 +470,7 @@ func main() {
 		}
 		r := runOne(&spec)
 		_ = enc.Encode(r)
+		out.Flush() // a crash of the code under test must not lose the results so far
 		if r.Hung {
 			break // the process is polluted by the stuck goroutines
 		}
